@@ -2219,8 +2219,15 @@ func (s *RegionRequestSender) onRegionError(
 		)
 		if s.replicaSelector != nil {
 			s.replicaSelector.onDataIsNotReady()
+			// do not backoff data-is-not-ready as we always retry with normal snapshot read.
+			return true, nil
 		}
-		// do not backoff data-is-not-ready as we always retry with normal snapshot read.
+		// Without a replica selector nothing turns the retry into a normal snapshot read on another peer or counts the
+		// attempts: back off, otherwise a store that keeps answering DataIsNotReady is retried forever.
+		err = bo.Backoff(retry.BoRegionScheduling, newBackoffErrWithRPCContext("data is not ready", ctx))
+		if err != nil {
+			return false, err
+		}
 		return true, nil
 	}
 
